@@ -245,7 +245,7 @@ def gen_alg(repo, build):
             c, s = (b, a) if flip else (a, b)
             if c not in ALG_LEAN:
                 raise ExtractError("unknown enumerator %s" % c)
-            out.append("(.%s, %s)" % (ALG_LEAN[c], lean_str(s)))
+            out.append("(.%s, [%s]) /- %s -/" % (ALG_LEAN[c], ", ".join(str(b) for b in s.encode()), lean_str(s)))
         return "[" + ",\n  ".join(out) + "]"
     text = f"""/- GENERATED by tie/extract.py from include/jwt.h and libjwt/jwt.c -- do not edit. -/
 import Jwt.AlgType
@@ -256,10 +256,10 @@ open Jwt
 def algOrd : List (Alg × Nat) := [{", ".join("(.%s, %d)" % (ALG_LEAN[n], v) for n, v in enum)}]
 
 /-- `jwt_alg_str`: `case X: return "s";` pairs, in source order (anything else returns NULL) -/
-def algStrTable : List (Alg × String) := {pairs(alg_str)}
+def algStrTable : List (Alg × List UInt8) := {pairs(alg_str)}
 
 /-- `jwt_str_alg`: the `!jwt_strcmp(alg, "s")` chain, in source order (falls through to INVAL) -/
-def strAlgTable : List (Alg × String) := {pairs(str_alg, flip=True)}
+def strAlgTable : List (Alg × List UInt8) := {pairs(str_alg, flip=True)}
 
 end Jwt.Generated
 """
@@ -267,7 +267,66 @@ end Jwt.Generated
     return "AlgTables.lean", text, info
 
 
-GENERATORS = [gen_base64, gen_alg]
+def gen_common(repo, build):
+    hdr = cpp(repo, build, "include/jwt.h")
+    claims = dict(enum_values(hdr, "jwt_claims_t"))
+    for k in ("JWT_CLAIM_ISS", "JWT_CLAIM_SUB", "JWT_CLAIM_AUD", "JWT_CLAIM_EXP", "JWT_CLAIM_NBF", "JWT_CLAIM_IAT", "JWT_CLAIM_JTI"):
+        if k not in claims:
+            raise ExtractError("jwt_claims_t lacks %s" % k)
+    out = {}
+    for side, macro in (("builder", "JWT_BUILDER"), ("checker", "JWT_CHECKER")):
+        mac = cpp_macros(repo, build, "libjwt/jwt-common.c", ("-D" + macro, "-include", "stdlib.h", "-include", "string.h",
+                                                             "-include", "jwt.h", "-include", "jwt-private.h"))
+        for k in ("CLAIMS_DEF", "__DISABLE"):
+            if k not in mac:
+                raise ExtractError("%s not defined for %s" % (k, side))
+        expr = mac["CLAIMS_DEF"][1]
+        toks = [t.strip() for t in expr.strip("() ").split("|")]
+        val = 0
+        for t in toks:
+            if t not in claims:
+                raise ExtractError("CLAIMS_DEF term %r is not a jwt_claims_t enumerator" % t)
+            val |= claims[t]
+        out[side] = (val, c_int(mac["__DISABLE"][1]), expr)
+    # __get_name: which claim types the checker maps to which member names
+    src = cpp(repo, build, "libjwt/jwt-common.c", ("-DJWT_CHECKER", "-include", "stdlib.h", "-include", "string.h",
+                                                    "-include", "jwt.h", "-include", "jwt-private.h"))
+    body = func_body(src, r"\b__get_name\s*\(\s*jwt_claims_t\s+\w+\s*\)\s*\{")
+    names = re.findall(r"type\s*==\s*(\w+)\s*\)\s*return\s+\"([^\"]*)\"", body)
+    if not names:
+        raise ExtractError("__get_name: no type/name pairs found")
+    for c, _ in names:
+        if c not in claims:
+            raise ExtractError("__get_name: unknown claim %s" % c)
+    text = f"""/- GENERATED by tie/extract.py from include/jwt.h and libjwt/jwt-common.c -- do not edit. -/
+namespace Jwt.Generated
+
+/-- `jwt_claims_t` bit values -/
+def claimIss : Nat := {claims['JWT_CLAIM_ISS']}
+def claimSub : Nat := {claims['JWT_CLAIM_SUB']}
+def claimAud : Nat := {claims['JWT_CLAIM_AUD']}
+def claimExp : Nat := {claims['JWT_CLAIM_EXP']}
+def claimNbf : Nat := {claims['JWT_CLAIM_NBF']}
+def claimIat : Nat := {claims['JWT_CLAIM_IAT']}
+def claimJti : Nat := {claims['JWT_CLAIM_JTI']}
+
+/-- checker: `CLAIMS_DEF` = `{out['checker'][2]}`, `__DISABLE` = {out['checker'][1]} -/
+def checkerClaimsDef : Nat := {out['checker'][0]}
+def checkerDisable : Int := {out['checker'][1]}
+/-- builder: `CLAIMS_DEF` = `{out['builder'][2]}`, `__DISABLE` = {out['builder'][1]} -/
+def builderClaimsDef : Nat := {out['builder'][0]}
+def builderDisable : Int := {out['builder'][1]}
+
+/-- `__get_name`: claim bit ↦ member name, in source order -/
+def checkerClaimNames : List (Nat × List UInt8) := [{", ".join("(%d, [%s]) /- %s -/" % (claims[c], ", ".join(str(b) for b in n.encode()), n) for c, n in names)}]
+
+end Jwt.Generated
+"""
+    info = {"claims": claims, "checker": out["checker"], "builder": out["builder"], "get_name": names}
+    return "CommonDefs.lean", text, info
+
+
+GENERATORS = [gen_base64, gen_alg, gen_common]
 
 
 def main():
